@@ -538,6 +538,21 @@ class C10(Driver):
             out.append({"k": "field", "b": 0, "lk": 1 if dct else j & 1, "mask": ALL_MASK if j % 3 else ALL_MASK & ~256,
                         "aseed": (f.off + j) % 997, "p": [[f.off, f.size, v.hex()]],
                         "d": "%s@%d:%r->%s" % (f.role, f.off, f.val, v.hex())})
+        if f.role == "func.envcount" and "envs" in f.ctx:
+            # the count and the payload changed together: fewer environments with the last ones removed, one more
+            # with a reference to an earlier environment / a detached empty one appended
+            envs = f.ctx["envs"]
+            n = len(envs)
+            j = len(out)
+            for k in range(1, n + 1):
+                ps = [[f.off, f.size, img.enc_int(n - k).hex()], [envs[n - k][0], envs[-1][1] - envs[n - k][0], ""]]
+                out.append({"k": "field", "b": 0, "lk": 1 if dct else (j + k) & 1, "mask": ALL_MASK, "aseed": (f.off + j + k) % 997,
+                            "p": norm_patches(ps), "d": "func.envcount@%d:%d->%d with the last %d environment(s) removed" % (f.off, n, n - k, k)})
+            end = f.ctx["envs_end"]
+            for extra, what in ((bytes([img.LB_FUNCENV_REF]) + img.enc_int(0), "envref 0"), (img.enc_int(0) + img.enc_int(0), "empty detached env")):
+                ps = [[f.off, f.size, img.enc_int(n + 1).hex()], [end, 0, extra.hex()]]
+                out.append({"k": "field", "b": 0, "lk": 1 if dct else 0, "mask": ALL_MASK, "aseed": (f.off + j) % 997,
+                            "p": norm_patches(ps), "d": "func.envcount@%d:%d->%d with %s appended" % (f.off, n, n + 1, what)})
         return out
 
     def gen_sweep(self, r, knobs, scale, name, data, dct, hot):
